@@ -165,6 +165,33 @@ def run(ck):
                              {"crystal": nm, "cutoff": cut, "kT": kT, "thermo": {k: np.asarray(v).tolist() for k, v in th.items()},
                               "transformed": {k: np.asarray(v).tolist() for k, v in t2.items()}, "kT2": kT2, "factor": factor,
                               "base": [b.tolist() for b in base], "got": [g.tolist() for g in got]}, key="c04-vm-" + vn)
+        # reference changes applied BEFORE the documented helper pipeline (thermodynamic data -> makeLIMBpreene -> preene2betafree
+        # -> Lij; tracer data -> maketracerpreene): the helpers themselves must carry the solute / vacancy reference through
+        t0 = {k: np.array(th[k], dtype=float) for k in ("preV", "eneV", "preS", "eneS", "preSV", "eneSV", "preT0", "eneT0")}
+        def limb(tt):
+            full = dict(tt); full.update(d.makeLIMBpreene(**tt)); return full
+        try:
+            Lb = [np.array(x) for x in d.Lij(*d.preene2betafree(kT, **limb(t0)))]
+        except Exception as e:
+            ck.violation("Lij raised %r on LIMB data" % e, {"crystal": nm}, key="c04-raise"); Lb = None
+        if Lb is not None:
+            tS = dict(t0, eneS=t0["eneS"] + delta, preS=t0["preS"] * lam)
+            tV = dict(t0, eneV=t0["eneV"] + delta, eneT0=t0["eneT0"] + delta, preV=t0["preV"] * lam, preT0=t0["preT0"] * lam)
+            for vn, tt in (("limb-solute-reference", tS), ("limb-vacancy-reference", tV)):
+                try:
+                    got = [np.array(x) for x in d.Lij(*d.preene2betafree(kT, **limb(tt)))]
+                except Exception as e:
+                    ck.violation("Lij raised %r under %s" % (e, vn), {"crystal": nm}, key="c04-raise"); continue
+                nvm += 1
+                scale = np.abs(Lb[0]).max()
+                err = max(np.abs(g - b).max() for g, b in zip(got, Lb)) / scale
+                ck.case(key=("vm", vn, nm, [np.asarray(v).round(10).tolist() for v in t0.values()], delta, lam), nontrivial=True, kind="vm:" + vn)
+                if err > 1e-9:
+                    ck.violation("vacancy-mediated coefficients built through makeLIMBpreene depend on the %s (energy shifted by %.3g, prefactor x %.3g): %.3g relative"
+                                 % (vn[5:], delta, lam, err),
+                                 {"crystal": nm, "cutoff": cut, "kT": kT, "thermo": {k: np.asarray(v).tolist() for k, v in t0.items()},
+                                  "transformed": {k: np.asarray(v).tolist() for k, v in tt.items()},
+                                  "base": [b.tolist() for b in Lb], "got": [g.tolist() for g in got]}, key="c04-vm-" + vn)
         # the same invariances on the scaled free energies handed to Lij DIRECTLY (no renormalisation by preene2betafree):
         # a common shift of a species' site and transition-state values must not matter whatever the zero of the arrays is
         bFV, bFS, bFSV, bFT0, bFT1, bFT2 = [np.array(x, dtype=float) for x in d.preene2betafree(kT, **th)]
@@ -209,7 +236,7 @@ def run(ck):
         # rate scaling over many decades with a very fast exchange (omega2 ~ 1e13 x bare): which omega2 algorithm Lij selects
         # must not depend on the time unit.  L0vv and Lss are accurate in this regime for crystals with one Wyckoff set and
         # no origin-state vector basis (Lsv/L1vv are the C08 known cancellation finding and are not compared)
-        if len(sl) == 1 and len(d.OSindices) == 0:
+        if not vm.exchange_mixes_stars(d):
             tf = {k: np.array(v, dtype=float) for k, v in th.items()}
             tf["preT2"] = tf["preT2"] * 1e13
             ref = [np.array(x) for x in d.Lij(*d.preene2betafree(kT, **tf))]
